@@ -574,12 +574,14 @@ class RedlineEngine:
                             applied += 1
                             occupied_ranges.append((start_idx, end_idx))
                             self.mapper._build_map()
+                            self.clean_mapper = None
                         else:
                             skipped += 1
                         continue
                 if self._apply_single_edit_heuristic(edit):
                     applied += 1
                     self.mapper._build_map()
+                    self.clean_mapper = None
                 else:
                     skipped += 1
         return applied, skipped
